@@ -403,6 +403,87 @@ func (e *env) bridgeCallFailures(r *rec, thorough bool) {
 	}
 }
 
+// ---------------------------------------------------------------- (b2) timed-out outgoing bridge call whose refund fails
+//
+// An outgoing bridge call made through the precompile (ERC-20 origin, 1 or 2 tokens) times out at an observed event while
+// governance has disabled the token's pair, so its refund cannot be completed. Either the oracle's claim transaction fails
+// as a whole and nothing changes, or - if the implementation chooses to tolerate the failed refund and keeps the call -
+// nothing but the observation itself (attestation, last-observed and per-oracle keys, the parked claim) may have changed.
+func (e *env) timedOutCallRefundFailures(r *rec) {
+	w := e.w
+	k := scen.Keeper(w, "eth")
+	base := world.Branch(e.ctx)
+	u1 := w.A("u1")
+	n := e.nonce + 1
+	scen.Observe(w, base, "eth", e.os, scen.SendToFxClaim("eth", n, 1001, e.usdt.Ext["eth"], 50, scen.ExtAddr("eth", "depositor"), u1.Acc(), "", ""))
+	if er := w.CallABI(base, w.A("rel"), cctypes.GetAddress(), cctypes.GetABI(), nil, 2_000_000, "executeClaim", "eth", new(big.Int).SetUint64(n)); !er.Success() {
+		r.viol("C18/harness/set-up-deposit-failed", "harness", er.String(), "timed-out-call")
+		return
+	}
+	w.MustDeliver(base, &erc20types.MsgConvertCoin{Coin: sdk.NewInt64Coin("usdt", 20), Receiver: u1.Hex().String(), Sender: u1.Bech()})
+	if ar := w.CallABI(base, u1, e.usdt.ERC20, contract.GetFIP20().ABI, nil, 300000, "approve", cctypes.GetAddress(), big.NewInt(10)); !ar.Success() {
+		r.viol("C18/harness/approve-failed", "harness", ar.String(), "timed-out-call")
+		return
+	}
+	for _, v := range []struct {
+		name  string
+		value *big.Int
+	}{{"usdt", nil}, {"FX+usdt", big.NewInt(2)}} {
+		ctx := world.Branch(base)
+		cr := w.CallABI(ctx, u1, cctypes.GetAddress(), cctypes.GetABI(), v.value, 3_000_000, "bridgeCall", "eth", u1.Hex(), []common.Address{e.usdt.ERC20}, []*big.Int{big.NewInt(3)},
+			common.HexToAddress(scen.ExtAddr("eth", "callee")), []byte{1}, big.NewInt(0), []byte{})
+		if !cr.Success() {
+			r.viol("C18/harness/outgoing-bridge-call-refused/"+v.name, "harness", cr.String(), v.name)
+			continue
+		}
+		id := scen.LastBridgeCallID(w, ctx, "eth")
+		for _, disabled := range []bool{false, true} {
+			c2 := world.Branch(ctx)
+			if disabled {
+				w.MustDeliver(c2, &erc20types.MsgToggleTokenConversion{Authority: world.GovAuthority(), Token: "usdt"})
+			}
+			pre := w.Dump(c2)
+			claim := scen.SendToFxClaim("eth", n+1, 100_000_000, e.usdt.Ext["eth"], 1, scen.ExtAddr("eth", "depositor"), w.A("u2").Acc(), "", "")
+			vr := scen.Vote(w, c2, "eth", e.os[0], claim)
+			r.res.Transitions++
+			r.res.Extra["evaluations"]++
+			_, still := k.GetOutgoingBridgeCallByNonce(c2, id)
+			name := fmt.Sprintf("timed-out-call(%s)/pair-disabled=%v", v.name, disabled)
+			class := "claim-transaction-failed"
+			switch {
+			case vr.OK() && !still:
+				class = "refunded"
+			case vr.OK() && still:
+				class = "refund-failure-tolerated-call-kept"
+			}
+			r.res.Outcomes["bridge-call/"+name+"/"+class]++
+			switch class {
+			case "claim-transaction-failed":
+				if !disabled {
+					r.viol("C18/harness/timeout-not-processed/"+v.name, "harness", vr.String(), name)
+				}
+				if d := world.DiffDumps(pre, w.Dump(c2)); len(d) > 0 {
+					r.viol("C18/failed-claim-transaction-left-writes/timed-out-call", "nothing-but-the-designated-outcome", fmt.Sprintf("%s: %v", name, d[:min(4, len(d))]), name)
+				}
+			case "refund-failure-tolerated-call-kept":
+				r.res.Counters["tolerated-failures"]++
+				oracleAddr := e.os[0].Acct.Acc()
+				allowed := []string{
+					"eth/" + hx(cctypes.GetAttestationKey(n+1, claim.ClaimHash())),
+					"eth/" + hx(cctypes.LastObservedEventNonceKey),
+					"eth/" + hx(cctypes.LastObservedBlockHeightKey),
+					"eth/" + hx(cctypes.GetLastEventNonceByOracleKey(oracleAddr)),
+					"eth/" + hx(cctypes.GetLastEventBlockHeightByOracleKey(oracleAddr)),
+					"eth/" + hx(cctypes.PendingExecuteClaimKey),
+				}
+				if extra := allowedOnly(world.DiffDumps(pre, w.Dump(c2)), allowed); len(extra) > 0 {
+					r.viol("C18/tolerated-refund-failure-left-writes/timed-out-call/"+v.name, "nothing-but-the-designated-outcome", fmt.Sprintf("%s: the call is still queued (its refund failed and was tolerated), yet besides the observation these changed: %v", name, extra[:min(6, len(extra))]), name)
+				}
+			}
+		}
+	}
+}
+
 func nativeDiff(a, b map[string][]byte) []string {
 	var out []string
 	for _, d := range world.DiffDumps(a, b) {
@@ -525,6 +606,7 @@ func run(thorough bool) func(shard, shards int, deadline time.Time) *explore.Res
 		r := &rec{res}
 		e.eventFailures(r)
 		e.bridgeCallFailures(r, thorough)
+		e.timedOutCallRefundFailures(r)
 		e.proposalFailures(r)
 		res.States = len(res.Outcomes)
 		res.Extra["distinct_nontrivial"] = float64(len(res.Outcomes))
@@ -544,7 +626,7 @@ func init() {
 	registry.Register(&registry.Check{
 		ID:          "C18",
 		Level:       "fault_enumeration",
-		Rule:        "tolerated-failure boundaries x failure points: (a) observed events whose handler fails (duplicate bridge token, FX decimals mismatch, unknown oracle set) - only the attestation, last-observed and per-oracle nonce keys may change; (b) inbound bridge call to a contract that reverts before / after its writes, with 1 or 2 tokens, with the k-th token pair disabled (also with the send-call-to memo flag, where the tokens go to the sender's address; also delivered to a plain account, k = 1, 2, both token orders, the account holding / not holding such coins, refund to itself / a third party), and with the nested call cut at every gas threshold of the callee's trace (block max gas varied) - either the claim execution fails as a whole and nothing changes, or the refund record holds exactly the claim's tokens and no contract write, token move or account change of the failed call survives; (c) passed proposals with message shapes G, F, GF, GGF, GFG, P, GP (G good, F failing, P panicking) - proposal marked failed, deposits refunded, no effect of earlier messages. IBC packet failures are enumerated in C19. distinct_nontrivial = distinct (boundary, variant, outcome) classes",
+		Rule:        "tolerated-failure boundaries x failure points: (a) observed events whose handler fails (duplicate bridge token, FX decimals mismatch, unknown oracle set) - only the attestation, last-observed and per-oracle nonce keys may change; (b) inbound bridge call to a contract that reverts before / after its writes, with 1 or 2 tokens, with the k-th token pair disabled (also with the send-call-to memo flag, where the tokens go to the sender's address; also delivered to a plain account, k = 1, 2, both token orders, the account holding / not holding such coins, refund to itself / a third party), and with the nested call cut at every gas threshold of the callee's trace (block max gas varied) - either the claim execution fails as a whole and nothing changes, or the refund record holds exactly the claim's tokens and no contract write, token move or account change of the failed call survives; (b2) an outgoing bridge call (ERC-20 origin, 1 or 2 tokens) that times out while its token's pair is disabled - the claim transaction fails as a whole, or, if the failed refund is tolerated, only the observation's own keys change; (c) passed proposals with message shapes G, F, GF, GGF, GFG, P, GP (G good, F failing, P panicking) - proposal marked failed, deposits refunded, no effect of earlier messages. IBC packet failures are enumerated in C19. distinct_nontrivial = distinct (boundary, variant, outcome) classes",
 		Assumptions: []string{"the callee is a hand-assembled contract (marker write, ERC-20 transfer, marker write, optional revert)", "CallEVM takes its gas limit from the block max gas, which is therefore the varied quantity"},
 		Jobs: func(tier string) []registry.Job {
 			return []registry.Job{{Name: "boundaries-x-failure-points", Custom: run(tier == "thorough"), Shards: 1}}
